@@ -20,6 +20,8 @@ def main():
     jobs = []
     for d in sorted(glob.glob(os.path.join(cp.VERIF, "seeded", "*"))):
         name = os.path.basename(d)
+        if name.startswith("N"):          # reclassified: not a violation of the property as stated (see its meta.json)
+            continue
         if prefixes and not any(name.startswith(p) for p in prefixes):
             continue
         patch = os.path.join(d, "patch.diff")
